@@ -444,8 +444,7 @@ class SymInt:
                 cache[key] = inset
             if c.branch(inset):
                 return hash(c.concretise(self.e, limit=len(hints) + 2))
-        m = c.get_model()
-        return hash(m.eval(self.e, model_completion=True).as_signed_long())
+        return hash(c.recorded(lambda: c.get_model().eval(self.e, model_completion=True).as_signed_long()))
 
     def __index__(self):
         return ctx().concretise(self.e)
